@@ -5,7 +5,7 @@
 cd /verif
 
 fail=0
-for dir in seeded seeded2; do
+for dir in seeded seeded2 seeded3; do
   [ -f $dir/EXPECTED ] || continue
   while read -r id want; do
     [ -z "$id" ] && continue
